@@ -85,6 +85,19 @@ CHECKS["C19"] = dict(
     note="Trusted: TLC; record identity = digest of the Debug form of the record in the harness.",
     ref="4 C19", technique="TLA+ model checking (TLC) + spec-to-code replay + trace validation")
 
+CHECKS["C15"] = dict(
+    text="WordMap (case-folded, apostrophe-normalised ids, last insertion wins), the mutable / FST / merged "
+         "back-ends' exact queries, the Levenshtein recursion vs. the two-row algorithm and the mutable fuzzy "
+         "search are specified in spec/DictOps.tla; TLC checks, for every word list within bounds and every "
+         "query, membership, back-end agreement (Id clashes are a named deviation), merged = union and fuzzy "
+         "soundness/completeness. Every TLC word list is built into the three real back-ends (merged in every "
+         "split) and queried exhaustively; the curated dictionary is queried with re-cased, edited, "
+         "apostrophe-variant, non-ASCII, empty and long queries; TLC validates every answer "
+         "(spec/trace/Trace_Dict.tla), recomputing Levenshtein distances itself.",
+    note="Trusted: TLC; for the curated dictionary the harness's own word set (from words_iter) decides "
+         "membership and the mutable back-end's full scan is the completeness reference.",
+    ref="4 C15", technique="TLA+ model checking (TLC) + spec-to-code replay + trace validation")
+
 NOT_YET = {}
 
 
